@@ -543,3 +543,46 @@ Example C07_ex_hook :
       = Elem (b_ s_edit_config) [] [ex_envnames (b_ s_config); Text (lit "t"%string); ex_envnames (b_ s_config); ex_envnames (a_ s_filter)]
   /\ (let n := Elem (a_ s_config) [] [Elem (a_ s_filter) [] [ex_envnames (a_ s_config)]] in iosxe_transform n = n).
 Proof. vm_compute. repeat split; try reflexivity. discriminate. Qed.
+
+From NC Require Import Model.Caps Model.CallHistory.
+From NC Require Import Spec.CapsSpec Spec.GatingSpec Proofs.GatingProofs Proofs.CallHistoryProofs.
+
+(* ---------------- histories of calls on ONE session (Model/CallHistory.v) ----------------
+   The request of a call is a function of the operation, its arguments and what the server advertised - not of the calls
+   made before on the same session: the i-th call of any history does what the same call does as the first call on a fresh
+   session of that server, and the session's parsed server capabilities at the end are those the <hello> gave. *)
+Theorem C07_history_independent : forall (s : sess) (cs : list call),
+  snd (history s cs) = s
+  /\ forall i c, nth_error cs i = Some c -> nth_error (fst (history s cs)) i = Some (perform s c).
+Proof. exact c07_history_independent. Qed.
+Print Assumptions C07_history_independent.
+
+(* ... in particular the enumerated set of with-defaults modes stays basic-mode + also-supported of THIS server after any
+   calls (valid or refused): such a call is sent, exactly once, whatever came before it *)
+Theorem C07_history_accepts : forall (uris : list bytes) (before : list call) (c : call),
+  wellformed c = true -> (forall k, In k (needs c) -> advertised uris k) ->
+  (forall norm, wd_of c = Some norm -> wd_accepts uris norm /\ xml_chars_ok norm = true) ->
+  exists tr, nth_error (fst (history (SCaps (caps_of uris)) (before ++ [c]))) (length before) = Some (tr, Sent)
+             /\ count_send tr = 1%nat.
+Proof. exact c07_history_accepts. Qed.
+Print Assumptions C07_history_accepts.
+
+Definition hist_uris : list bytes :=
+  [ lit "urn:ietf:params:netconf:base:1.1"%string;
+    lit "urn:ietf:params:netconf:capability:with-defaults:1.0?basic-mode=explicit&also-supported=report-all,trim"%string ].
+Definition hist_get (m : string) : call := CGet None (Some (lit m)).
+Definition hist_get_config (m : string) : call := CGetConfig (DsStr (lit "running"%string) true) None (Some (lit m)).
+(* also-supported modes after a basic-mode call, after each other, after a refused call; the refused mode stays refused;
+   the hypotheses of C07_history_accepts hold for the last call *)
+Example C07_ex_history :
+  map snd (fst (history (SCaps (caps_of hist_uris))
+     [hist_get "explicit"; hist_get_config "report-all"; hist_get "trim"; hist_get "report-all-tagged"; hist_get_config "trim"; hist_get "report-all"]))
+  = [Sent; Sent; Sent; Exn WithDefaultsError; Sent; Sent]
+  /\ snd (history (SCaps (caps_of hist_uris)) [hist_get "explicit"; hist_get "trim"]) = SCaps (caps_of hist_uris)
+  /\ wellformed (hist_get "report-all") = true /\ (forall k, In k (needs (hist_get "report-all")) -> advertised hist_uris k)
+  /\ wd_accepts hist_uris (lit "report-all"%string).
+Proof.
+  split; [vm_compute; reflexivity|]. split; [reflexivity|]. split; [reflexivity|]. split.
+  - intros k Hk. apply present_iff. vm_compute in Hk. destruct Hk as [<-|[]]; vm_compute; reflexivity.
+  - apply wd_accepts_iff. vm_compute. eexists; eexists. split; [reflexivity|]. split; reflexivity.
+Qed.
